@@ -211,7 +211,32 @@ func asOverlappingEscalations(rng *rand.Rand) (*asScenario, []asStep) {
 
 // asZombieSubscriber: an actor that holds subscriptions fails, its restart fails (it becomes a zombie) and it is
 // then killed or stopped with the system: the stream must not keep an entry for it.
+// asDefensiveUnsubscribe: actors unsubscribe from types they are not subscribed to (again and again) while others stay
+// subscribed; every publication still reaches every subscriber.
+func asDefensiveUnsubscribe(rng *rand.Rand) (*asScenario, []asStep) {
+	par := map[string]string{"t": "root", "a": "t", "b": "t", "c": "t"}
+	sc := &asScenario{Parent: par, Names: []string{"a", "b", "c", "t"}, Cfg: asConfig{Decision: map[string]string{}, Strategy: map[string]string{}}}
+	for _, n := range sc.Names {
+		sc.Cfg.Decision[n], sc.Cfg.Strategy[n] = "resume", "ofo"
+	}
+	steps := []asStep{{A: "spawn", X: "t"}, {A: "settle"}}
+	nsub := 1 + rng.Intn(3)
+	subs := []string{"a", "b", "c"}[:nsub]
+	for _, n := range subs {
+		steps = append(steps, asStep{A: "tell", X: n, Op: "sub", Arg: "A"})
+	}
+	steps = append(steps, asStep{A: "settle"}, asStep{A: "tell", X: "t", Op: "pub", Arg: "A"}, asStep{A: "settle"})
+	for k := 0; k < 9+nsub+rng.Intn(3); k++ { // more often than there are subscriptions in the whole system (the observer holds five)
+		// t is not subscribed to anything
+		steps = append(steps, asStep{A: "tell", X: "t", Op: "unsub", Arg: "A"}, asStep{A: "settle"}, asStep{A: "tell", X: "t", Op: "pub", Arg: "A"}, asStep{A: "settle"})
+	}
+	return sc, steps
+}
+
 func asZombieSubscriber(rng *rand.Rand) (*asScenario, []asStep) {
+	if rng.Intn(2) == 0 {
+		return asDefensiveUnsubscribe(rng)
+	}
 	par := map[string]string{"t": "root", "a": "t", "b": "t", "c": "a"}
 	sc := &asScenario{Parent: par, Names: []string{"a", "b", "c", "t"}, Cfg: asConfig{Decision: map[string]string{}, Strategy: map[string]string{}}}
 	for _, n := range sc.Names {
@@ -539,6 +564,12 @@ func init() {
 			c.Broken("stream stress: %v", err)
 			return
 		}
+		st2, err := runSubscriberRespawnStress(core.Pick(c, 4000, 40000))
+		if err != nil {
+			c.Broken("subscriber respawn stress: %v", err)
+			return
+		}
+		st = append(st, st2...)
 		res := ValidateTraces(c, "asmon", "StreamMon", "StreamMon.cfg", st, asDefaults)
 		res.Report(c, "StreamMon")
 		c.Add("traces_validated_against_impl", int64(res.Validated))
